@@ -445,11 +445,17 @@ ResumeRead(a) == /\ wr.paused[a]
                  /\ wr' = [wr EXCEPT !.paused[a] = FALSE, !.grace[a] = FALSE, !.buf[a] = <<>>] /\ CoreSame /\ UNCHANGED <<lastRx, dnet>>
 \* forged application data: from the attacker's address or from (the public form of) any of the peer's addresses - also one the
 \* receiver's remote IP filter rejects, which has then never become a remote candidate whatever checks it sent
+\* the application reads once with a buffer shorter than any datagram while its reader is stopped (and not inside Read): the
+\* oldest datagram waiting in the agent's receive buffer is used up by that call - cut, and reported as such, never handed over
+\* as if it were whole; with nothing waiting the call takes nothing
+ShortRead(a) == /\ wr.paused[a] /\ ~wr.grace[a]
+                /\ wr' = [wr EXCEPT !.buf[a] = IF @ = <<>> THEN @ ELSE Tail(@)]
+                /\ CoreSame /\ UNCHANGED <<lastRx, dnet>> /\ rd' = NoReads
 ForgedData == UNION {{[from |-> "X", src |-> s, dst |-> NatMap[Loc[b][1]], pid |-> wr.n + 1, len |-> PLen] :
                         s \in {"x9"} \cup {NatMap[Loc[Other(b)][k]] : k \in 1..Len(Loc[Other(b)])}} : b \in Agents}
 DataIdle == UNCHANGED <<dnet, wr>> /\ rd' = NoReads
 DataNext ==
-  \/ \E a \in Agents : Write(a, wr.n + 1, PLen) \/ WriteStun(a) \/ (MaxPause > 0 /\ (PauseRead(a) \/ ResumeRead(a)))
+  \/ \E a \in Agents : Write(a, wr.n + 1, PLen) \/ WriteStun(a) \/ (MaxPause > 0 /\ (PauseRead(a) \/ ResumeRead(a) \/ ShortRead(a)))
   \/ \E d \in BagToSet(dnet) : DeliverData(d) \/ DropData(d) \/ VanishData(d)
   \/ \E d \in ForgedData : InjectData(d)
 CoreNext ==
